@@ -103,16 +103,23 @@ def frontend_doc_tags(pm):
     from .model import AnalysisError
     v = pm.func('stone.frontend.ir_generator.IRGenerator._validate_doc_refs_helper')
     tags = set()
-    last = None
     for n in own_nodes(v.node):
-        if isinstance(n, ast.If) and isinstance(n.test, ast.Compare) and \
-                unparse(n.test.left) == 'tag' and isinstance(n.test.ops[0], ast.Eq) and \
-                isinstance(n.test.comparators[0], ast.Constant):
-            tags.add(n.test.comparators[0].value)
-            last = n
-    closed = last is not None and last.orelse and isinstance(last.orelse[-1], ast.Raise) and \
-        'InvalidSpec' in unparse(last.orelse[-1])
-    if not tags or not closed:
+        L = _literal_set(n, 'tag') if isinstance(n, ast.Compare) else None
+        if L:
+            tags |= {t for t in L if isinstance(t, str)}
+    # closed: some raise of the spec error is reached exactly when tag is none of them
+    pi = path_info(v.node)
+    closed = False
+    for n in own_nodes(v.node):
+        if isinstance(n, ast.Raise) and n.exc is not None and 'InvalidSpec' in unparse(n.exc):
+            excluded = set()
+            for e, pol in pi.at(n):
+                L = _literal_set(e, 'tag')
+                if L is not None and not pol:
+                    excluded |= L
+            if tags and excluded >= tags:
+                closed = True
+    if len(tags) < 3 or not closed:
         raise AnalysisError('anchor=%s (doc tag dispatch not recognised)' % v.qualname)
     return frozenset(tags)
 
